@@ -75,6 +75,9 @@ def main(tier):
                 cases.append({"kind": "purity", "seed": ck.seed, "weights": wq, "activations": aq, "frozen": frozen})
                 if aq is not None and wq in ("qint8", "qint4"):
                     cases.append({"kind": "purity", "seed": ck.seed, "weights": wq, "activations": aq, "frozen": frozen, "inplace": True})
+                if aq is not None and wq in ("qint8", "qfloat8"):
+                    # attention scores: bmm of two quantized activations (their scales are the modules' own output_scale buffers)
+                    cases.append({"kind": "purity", "seed": ck.seed, "weights": wq, "activations": aq, "frozen": frozen, "attn": True})
     cases += [{"kind": "ext", "seed": 0, "raise": False}, {"kind": "ext", "seed": 0, "raise": True}]
     res = ck.impl("scoped", {"cases": cases}, timeout=1800)
     if isinstance(res, dict):
@@ -96,10 +99,13 @@ def main(tier):
                 ck.violation("an exception raised inside a Calibration context was swallowed (or appeared from nowhere)", {"program": c["prog"], "raised": r["raised"]})
             if not r["fresh_unchanged"]:
                 ck.violation("a model created and run after the contexts were left is modified by a forward pass", {"program": c["prog"]})
+            if any(not x["restored"] for x in r.get("left", [])):
+                ck.violation("leaving a (nested) Calibration context did not restore the global hook registries / mode stack to what they held when that context was entered "
+                             "(e.g. the enclosing context's hooks were removed too)", {"program": c["prog"], "exits": r["left"]})
             progs.append((c, r))
         elif c["kind"] == "purity":
-            ck.case(("purity", c["weights"], c["activations"], c["frozen"], c.get("inplace", False)), nontrivial=True)
-            cfg = {k: c.get(k) for k in ("weights", "activations", "frozen", "inplace")}
+            ck.case(("purity", c["weights"], c["activations"], c["frozen"], c.get("inplace", False), c.get("attn", False)), nontrivial=True)
+            cfg = {k: c.get(k) for k in ("weights", "activations", "frozen", "inplace", "attn")}
             if r["forward_changes_state"]:
                 ck.violation("running a quantized model outside a Calibration context changed a parameter, buffer, scale or qtype", {"config": cfg})
             if r["input_changed"] or r["library_inputs_changed"]:
